@@ -154,6 +154,14 @@ def factory() -> Factory:
     return Factory()
 
 
+BURST_ALPHABET = (('kill', 't1'), ('pause',), ('play',), ('resume', 'v1'), ('cancel',), ('unask',))
+
+
+def burst_factory() -> Any:
+    from ._common import CtlProperty
+    return CtlProperty(ID, Oracle, cfg_for).as_burst(BURST_ALPHABET)
+
+
 def units_for(tier: str) -> List[Any]:
     kinds = ('S', 'Y1', 'G')
     base12 = list(programs.linear_programs(2, kinds, ('cont', 'wait'), ('ret', 'raise', 'killcmd')))
@@ -311,7 +319,16 @@ def run_check(tier: str, seed: int, workers: Any) -> Dict[str, Any]:
         factory, (), tiny, deep, seed, workers,
         rule=f'the two smallest programs with <= {deep["K"]} requests', assumptions=[], bounds=deep,
         describe=lambda u: programs.describe(u[0]))
-    out = runner.merge([part1, part2, part_deep])
+    nb = 5 if tier == 'quick' else 6
+    burst_units = [((('S', (), 'wait'), ('S', (), 'ret')), None), ((('Y1', (), 'wait'), ('S', (), 'ret')), None)]
+    part_burst = runner.run_explorer(
+        burst_factory, (), burst_units, {'K': nb}, seed, workers, split_depth=3,
+        rule=f'bursts: every sequence of <= {nb} requests from ' + repr(BURST_ALPHABET) + ' issued right behind one another wherever '
+             'the loop is quiescent, on two waiting programs (long sequences at few places)', assumptions=[],
+        bounds={'K': nb, 'placements': 'quiescent points only'}, describe=lambda u: programs.describe(u[0]))
+    for v in part_burst['violations']:
+        v['features'] = dict(v.get('features', {}), part='burst')
+    out = runner.merge([part1, part2, part_deep, part_burst])
     from ..explore import guarded_part
     part3 = guarded_part(check_recreated, 240, {'part': 'recreated'})
     out['coverage']['evaluations'] += part3['n']
@@ -350,6 +367,8 @@ def replay(doc: Dict[str, Any]) -> List[Dict[str, Any]]:
     if (doc.get('case') or {}).get('part') == 'recreated':
         return check_recreated()['violations']
     unit = to_tuple(doc['unit'])
+    if (doc.get('features') or {}).get('part') == 'burst':
+        return burst_factory().replay(doc)
     run = (wc_factory() if is_wc_unit(unit) else factory()).make_run(unit)
     res = run(Chooser(tuple(doc['choices'])))
     return res.violations
